@@ -238,6 +238,20 @@ theorem C03_seq_assign_slice_broadcast (s : Seq α) (x : List α) (h : s.symbols
         x.drop (sliceBounds x.length a b).2) :=
   setSlice_broadcast s x h a b y hy hw
 
+/-- `sequence[a:b] = other_sequence` (repaired code): assigning a Sequence is assigning its symbols,
+whatever its alphabet — the same one, one this alphabet extends, one that extends this alphabet or a
+foreign one.  Accepted iff every symbol is in this alphabet (then the string is updated and class
+and alphabet are kept); a symbol outside this alphabet is an `AlphabetError`. -/
+theorem C03_seq_assign_seq (s item : Seq α) (x y : List α) (hs : s.symbols = .ok x) (hi : item.symbols = .ok y)
+    (a b : Option Int) :
+    ((∀ t ∈ y, t ∈ s.alph) →
+      y.length = (sliceBounds x.length a b).2 - (sliceBounds x.length a b).1 →
+      ∃ s', s.setSliceSeq a b item = .ok s' ∧
+        s'.symbols = .ok (x.take (sliceBounds x.length a b).1 ++ y ++ x.drop (sliceBounds x.length a b).2) ∧
+        s'.alph = s.alph ∧ s'.kind = s.kind) ∧
+    ((∃ t ∈ y, t ∉ s.alph) → s.setSliceSeq a b item = .error .alphabetError) :=
+  setSliceSeq_spec s item x y hs hi a b
+
 /-- `sequence.symbols = value` sets the string to `value`; a symbol outside the alphabet is refused
 with `AlphabetError` (and, the model being a value, the sequence is what it was). -/
 theorem C03_seq_set_symbols (s : Seq α) (syms : List α) :
@@ -651,6 +665,9 @@ example : translateComplete (CodonTable.mk (List.replicate 64 8) [14]) [0, 0, 4]
 example : ((Seq.mk 0 [65, 67] [0, 1]).add (Seq.mk 0 [65, 67, 71] [2])).bind Seq.symbols = .ok [65, 67, 71] ∧
     (Seq.mk 0 [65, 67] [0]).add (Seq.mk 0 [67, 65] [0]) = .error .valueError := by decide
 example : ((Seq.mk 0 [65, 67] [0, 1, 0, 1]).setSlice (some 1) none [67]).bind Seq.symbols = .ok [65, 67, 67, 67] := by decide
+example : ((Seq.mk 1 [65, 67, 71, 84] [0, 1, 2, 3]).setSliceSeq (some 1) (some 3) (Seq.mk 2 [65, 67, 68] [1, 1])).bind Seq.symbols = .ok [65, 67, 67, 84] ∧
+    (Seq.mk 1 [65, 67, 71, 84] [0, 1, 2, 3]).setSliceSeq (some 1) (some 3) (Seq.mk 1 [65, 67, 71, 84, 78] [4, 4]) = .error .alphabetError ∧
+    ((Seq.mk 1 [65, 67, 71, 84, 78] [4, 4, 4]).setSliceSeq (some 0) (some 2) (Seq.mk 1 [65, 67, 71, 84] [3, 2])).bind Seq.symbols = .ok [84, 71, 78] := by decide
 example : numberToCodon 53 = [3, 1, 1] ∧ codonNumber [3, 1, 1] = some 53 := by decide
 example : complementCodes Gen.C03.nucAmb Gen.C03.complDict [0, 4, 14] = .ok [3, 5, 14] := by decide +kernel
 
